@@ -246,3 +246,20 @@ pub fn diff_hint(a: &str, b: &str) -> String {
     let cut = |s: &str| s.chars().skip(lo).take(160).collect::<String>();
     format!("at byte {}: {} <> {}", i, cut(a), cut(b))
 }
+
+// ---------- sub mode (C05): the branch chosen by `A extends B ? "yes" : "no"` in the REAL compiler ----------
+pub fn run_sub(req: &Sx) -> (Sx, Sx) {
+    let src = req.as_list()[5].as_str().to_string();
+    let ok = list(vec![atom("oracle"), atom("ok")]);
+    match compile_files(&[("entry.ts".to_string(), src)], &[], &[], None) {
+        Outcome::Js(code) => {
+            let yes = code.contains("\"yes\"");
+            let no = code.contains("\"no\"");
+            let ans = if yes && !no { "yes" } else if no && !yes { "no" } else { "unclear" };
+            (list(vec![atom("sub"), atom(ans)]), ok)
+        }
+        Outcome::Diags(ds) => (list(vec![atom("sub"), atom("diags"), st(&ds.first().map(|d| format!("{}", d)).unwrap_or_default().chars().take(200).collect::<String>())]), ok),
+        Outcome::ParseFail(m) => (list(vec![atom("sub"), atom("parse-fail"), st(&m.chars().take(100).collect::<String>())]), ok),
+        Outcome::EmitErr(m) => (list(vec![atom("sub"), atom("emit-error"), st(&m)]), ok),
+    }
+}
